@@ -57,3 +57,24 @@ Definition enc_openvpn_tcp (packet : bytes) : option bytes := enc_opaque 0 65535
 
 (* PostgreSQL SSLRequest: Int32(8) length, Int32(80877103) code *)
 Definition enc_pg_ssl_request : bytes := enc_uint 4 8 ++ enc_uint 4 80877103.
+
+(* the other control-channel packets: P_ACK_V1 (opcode 5) is the header alone; P_CONTROL_HARD_RESET_CLIENT_V2 (7) has no
+   acknowledgements and a packet id; P_CONTROL_HARD_RESET_SERVER_V2 (8) is header and packet id *)
+Definition enc_openvpn_ack (session : Z) (acks : list Z) (remote : Z) : bytes := enc_openvpn_header 5 session acks remote.
+Definition enc_openvpn_hard_reset_client (session packet_id : Z) : bytes :=
+  enc_openvpn_header 7 session [] 0 ++ enc_uint 4 packet_id.
+Definition enc_openvpn_hard_reset_server (session : Z) (acks : list Z) (remote packet_id : Z) : bytes :=
+  enc_openvpn_header 8 session acks remote ++ enc_uint 4 packet_id.
+
+(* reading the header back: opcode (the key id in the low three bits is not part of it), session id, acknowledged packet
+   ids, and the remote session id exactly when there are acknowledgements; what follows the header is returned as is *)
+Definition dec_openvpn_header (b : bytes) : option (Z * Z * list Z * option Z * bytes) :=
+  let? (t, r0) := dec_uint 1 b in
+  let? (s, r1) := dec_uint 8 r0 in
+  let? (n, r2) := dec_uint 1 r1 in
+  if n =? 0 then Some (t / 8, s, [], None, r2)
+  else if zlen r2 <? 4 * n + 8 then None
+  else let k := Z.to_nat (4 * n) in
+       let? acks := dec_items 4 (S k) (firstn k r2) in
+       let? (rs, r3) := dec_uint 8 (skipn k r2) in
+       Some (t / 8, s, acks, Some rs, r3).
